@@ -82,7 +82,7 @@ int main()
     std::ios::sync_with_stdio(false);
     static vh::guarded_buffer gb(1 << 16);
     std::string line;
-    long cases = 0;
+    long cases = 0, n_timeouts = 0, n_fails = 0;
     while(std::getline(std::cin, line))
     {
         if(line.empty())
@@ -101,11 +101,17 @@ int main()
             want += l;
             want += '\n';
         }
+        cases++;
+        if(n_timeouts >= 12 || n_fails >= 400)
+        {
+            // a broken tree can turn every case into a CPU-budget timeout: report the rest as NOT-RUN instead of spending hours
+            std::cout << "FAIL " << id << " NOT-RUN (too many failures in this driver process)\n";
+            continue;
+        }
         auto img = drv::unhex(hex == "-" ? std::string() : hex);
         gb.fill(0xCD);
         unsigned char* p = gb.at(img.size());
         std::memcpy(p, img.data(), img.size());
-        cases++;
         std::string failure;
         long total_blocks = 0, runs = 0;
         // complete visit
@@ -142,7 +148,11 @@ int main()
         if(failure.empty())
             std::cout << "OK " << id << " " << runs << " " << total_blocks << "\n";
         else
+        {
+            n_fails++;
+            n_timeouts += failure.find("TIMEOUT") != std::string::npos;
             std::cout << "FAIL " << id << " " << failure << "\n";
+        }
     }
     std::cout << "DONE " << cases << "\n";
 }
